@@ -429,6 +429,13 @@ static void exec_op(int idx, OpLine *o)
         int both0 = sim_omp_litmus_sb(atoi(o->tok[1]));
         leave();
         fprintf(g_out, "r %d T2 rc=%d\n", idx, both0);
+    } else if (!strcmp(op, "T3")) {
+        /* T3 nthreads: threadprivate persistence test; rc = number of wrong observations (0 expected where TLS is modelled) */
+        extern int sim_omp_tls_test(int nthreads);
+        enter();
+        int bad = sim_omp_tls_test(atoi(o->tok[1]));
+        leave();
+        fprintf(g_out, "r %d T3 rc=%d\n", idx, bad);
     } else if (!strcmp(op, "K")) {
         if (!strcmp(o->tok[1], "clock_jump")) simclock_jump(strtoll(o->tok[2], NULL, 0));
         else set_world(o->tok[1], o->tok[2]);
@@ -539,9 +546,18 @@ int main(int argc, char **argv)
     __sanitizer_set_death_callback(death_dump);
 #endif
 
+    /* the root fiber plays the program's main thread: 8 MB like the default RLIMIT_STACK (plus room for the simulator's
+       own frames), with a guard below it; the ASan build keeps a generous stack (its frames are much larger) */
+#ifdef SIM_ASAN
     size_t sz = (size_t)1 << 30;
-    void *stk = mmap(NULL, sz, PROT_READ | PROT_WRITE, MAP_PRIVATE | MAP_ANONYMOUS | MAP_NORESERVE | MAP_STACK, -1, 0);
-    if (stk == MAP_FAILED) { perror("mmap"); return 2; }
+#else
+    size_t sz = ((size_t)8 << 20) + ((size_t)256 << 10);
+#endif
+    size_t guard = (size_t)64 << 10;
+    char *stk0 = mmap(NULL, sz + guard, PROT_READ | PROT_WRITE, MAP_PRIVATE | MAP_ANONYMOUS | MAP_NORESERVE | MAP_STACK, -1, 0);
+    if (stk0 == MAP_FAILED) { perror("mmap"); return 2; }
+    mprotect(stk0, guard, PROT_NONE);
+    void *stk = stk0 + guard;
     VALGRIND_STACK_REGISTER(stk, (char *)stk + sz);
     simomp_set_root_stack(stk, sz);
     getcontext(&g_root_uc);
